@@ -88,6 +88,19 @@ func specialC19(prof *Profile, seed uint64) *RunResult {
 	} else if res.Final != twin.Final {
 		res.Viol = append(res.Viol, Violation{Prop: "C19", Rule: "replay-identical", FP: "final-state-differs", Detail: "exported genesis or bank balances differ between the run and its replay"})
 	}
+	// restarts must be invisible: the same trace with the node rebuilt from the DB before every block
+	rt := res
+	if seed%2 == 0 {
+		res.Stats.Count("rule:C19.restart-twin")
+		rt = runReplayOpt(prof, res.Trace, false, true)
+	}
+	if rt.HarnessErr != "" {
+		res.HarnessErr = "restart twin: " + rt.HarnessErr
+		return res
+	}
+	if blk, what := firstDivergence(res.HashLog, rt.HashLog); blk >= 0 {
+		res.Viol = append(res.Viol, Violation{Prop: "C19", Rule: "replay-identical", FP: "restart-twin-differs " + classifyDivergence(res.HashLog, rt.HashLog, blk), Detail: fmt.Sprintf("the same trace on an instance that is rebuilt from its database before every block diverges at block #%d (%s): processing depends on process memory, not only on committed state\n as run:    %.400s\n restarted: %.400s", blk, what, at(res.HashLog, blk), at(rt.HashLog, blk)) + ackDivergence(res.AckLog, rt.AckLog)})
+	}
 	// a sample also in separate OS processes
 	if prof.CrossProcess != nil && prof.CrossProcess(seed) {
 		res.Stats.Count("rule:C19.cross-process")
@@ -204,6 +217,13 @@ func traceCheckC19(prof *Profile, trace []Op) *RunResult {
 		if blk, what := firstDivergence(a.HashLog, b.HashLog); blk >= 0 {
 			a.Viol = append(a.Viol, Violation{Prop: "C19", Rule: "replay-identical", FP: "in-process-replay-differs " + classifyDivergence(a.HashLog, b.HashLog, blk), Detail: fmt.Sprintf("two executions of the same trace diverge at block #%d (%s):\n first:  %.400s\n second: %.400s", blk, what, at(a.HashLog, blk), at(b.HashLog, blk))+ackDivergence(a.AckLog, b.AckLog)})
 			return a
+		}
+		c := runReplayOpt(prof, trace, false, true)
+		if c.HarnessErr == "" {
+			if blk, what := firstDivergence(a.HashLog, c.HashLog); blk >= 0 {
+				a.Viol = append(a.Viol, Violation{Prop: "C19", Rule: "replay-identical", FP: "restart-twin-differs " + classifyDivergence(a.HashLog, c.HashLog, blk), Detail: fmt.Sprintf("the same trace on an instance that is rebuilt from its database before every block diverges at block #%d (%s)\n as run:    %.400s\n restarted: %.400s", blk, what, at(a.HashLog, blk), at(c.HashLog, blk)) + ackDivergence(a.AckLog, c.AckLog)})
+				return a
+			}
 		}
 		if a.Final != b.Final {
 			a.Viol = append(a.Viol, Violation{Prop: "C19", Rule: "replay-identical", FP: "final-state-differs", Detail: "exported genesis or bank balances differ between two executions of the same trace"})
